@@ -64,11 +64,18 @@ TEMPLATES = {
     # a <break> resets "an optional field was missing": what follows in the next chunk is written / required again
     "optbrkopt": ('<field name="a{i}" type="char" optional="true"/><break/>'
                   '<field name="f{i}" type="string" length="4" padded="true" optional="true"/>', True),
+    "optbrkoptc": ('<field name="a{i}" type="char" optional="true"/><break/><field name="f{i}" type="short" optional="true"/>', True),
     "optbrkreq": ('<field name="a{i}" type="short" optional="true"/><break/><field name="f{i}" type="char"/>'
                   '<array name="g{i}" type="char" length="2"/>', True),
     "optlenstroff": ('<length name="n{i}" type="short" offset="2" optional="true"/>'
                      '<field name="f{i}" type="encoded_string" length="n{i}" optional="true"/>', False),
     "opthard": ('<field name="a{i}" type="char" optional="true"/><field name="f{i}" type="short" optional="true">7</field>', False),
+    # optional fields on both sides of a switch boundary (the "missing optional" bookkeeping of the emitted serialize is
+    # per method: the case-data class and the enclosing class each need their own)
+    "optswitchopt": ('<field name="k{i}" type="char"/><field name="o{i}" type="short" optional="true"/><switch field="k{i}">'
+                     '<case value="1"><field name="y" type="char" optional="true"/></case></switch>', False),
+    "switchoptopt": ('<field name="k{i}" type="char"/><switch field="k{i}"><case value="1"><field name="y" type="char" optional="true"/>'
+                     '</case></switch><field name="o{i}" type="short" optional="true"/>', False),
     "optchar": ('<field name="f{i}" type="char" optional="true"/>', False),
     "optstr": ('<field name="f{i}" type="string" optional="true"/>', False),
     "optenum": ('<field name="f{i}" type="E" optional="true"/>', False),
